@@ -14,7 +14,10 @@ C(kind, sig, pt, limit, size, pay) == [kind |-> kind, sig |-> sig, pt |-> pt, li
 Sigs == {<<0, 1>>, <<1, 4>>, <<1, 2>>, <<3, 4>>, <<1, 1>>}
 Cfgs ==
   CASE CfgSet = "interp" -> {C(k, Lin, FALSE, None, 8, "scalar") : k \in {"next", "prev", "linear"}} \cup
-                            {C("step", sg, FALSE, None, 8, "scalar") : sg \in Sigs}
+                            {C("step", sg, FALSE, None, 8, "scalar") : sg \in Sigs} \cup
+                            \* payload in an offset unit (degC): values are positions on a scale, not amounts
+                            {C("linear", Lin, FALSE, None, 8, "temp"), C("step", <<1, 2>>, FALSE, None, 8, "temp"),
+                             C("next", Lin, FALSE, None, 8, "temp")}
     [] CfgSet = "interpgrid" -> {C(k, Lin, FALSE, None, 16, "grid") : k \in {"next", "prev", "linear"}} \cup
                             {C("step", sg, FALSE, None, 16, "grid") : sg \in {<<0, 1>>, <<1, 2>>}}
     [] CfgSet = "integ"  -> {C("avg", sg, TRUE, None, 8, "scalar") : sg \in {Lin, <<0, 1>>, <<1, 2>>, <<1, 1>>}} \cup
